@@ -1,6 +1,7 @@
 (* C11 - A locked tree reader is never invalidated, and deferral keeps commit order. *)
 From Coq Require Import NArith List Bool.
 From PDB Require Import Model.MultiTree Proofs.MultiTreeProofs Proofs.MultiTreeDrain.
+From PDB Require Proofs.MultiTreeForest Proofs.MultiTreePipe.
 Import ListNotations.
 Open Scope N_scope.
 
@@ -36,7 +37,85 @@ Proof. exact old_rule_rotates_for_ever. Qed.
 Example C11_same_queue_drains_now : qiter 6 f24_queue = [].
 Proof. exact f24_queue_drains. Qed.
 
+(* The first half of the property for whole schedules. From any state a pipelined history reaches (single-operation
+   transactions made and processed at any moment, locks taken and released, crashes), as long as the reader lock of
+   tree k stays held - whatever else is committed (dereferences of k, trees that reuse its nodes, dereferences of
+   trees that share nodes with it), processed, postponed, locked or unlocked meanwhile - the root of k stays what it
+   was and every node of the tree stays stored and readable. (Every processed commit is assumed to find what its
+   author saw - [head_ok]; where known finding F4 lets a postponed transaction be overtaken that assumption is what
+   fails.) *)
+Module Held.
+Import PDB.Proofs.MultiTreeForest PDB.Proofs.MultiTreePipe.
+Theorem C11_locked_tree_root_is_kept :
+  forall cf k s s' r, m_append_only cf = false -> pipe_run cf s -> held_run cf k s s' ->
+  amem (locked s) k = true -> holds_root s k r -> holds_root s' k r /\ amem (locked s') k = true.
+Proof. exact locked_tree_root_is_kept. Qed.
+Theorem C11_locked_tree_stays_readable :
+  forall cf k s s' r, m_append_only cf = false -> pipe_run cf s -> held_run cf k s s' ->
+  amem (locked s) k = true -> holds_root s k r ->
+  holds_root s' k r /\ forall id, tree_reach s' r id -> exists n, get_node s' id = Some n.
+Proof. exact locked_tree_stays_readable. Qed.
+
+Theorem C11_locked_tree_is_unchanged :
+  forall cf k s s' r, m_append_only cf = false -> pipe_run cf s -> held_run cf k s s' ->
+  amem (locked s) k = true -> holds_root s k r ->
+  forall id n, tree_reach s r id -> alook (nodes s) id = Some n -> alook (nodes s') id = Some n /\ tree_reach s' r id.
+Proof. exact locked_tree_is_unchanged. Qed.
+
+(* The order half, where it does hold: without a lock nothing is postponed - the head of the queue is applied and the
+   queue is the queue of commit calls in their order (a commit made while no lock is held makes nobody wait). The
+   refutation above needs a lock: that is where F4 lives. *)
+Theorem C11_without_locks_commit_order_is_kept :
+  forall cf s c rest, mqueue s = c :: rest -> locked s = [] -> Forall (fun c' => mc_used c' = []) rest ->
+  must_defer s c rest = false /\ mqueue (mprocess cf s) = rest.
+Proof. exact no_lock_no_postponement. Qed.
+Theorem C11_commit_without_lock_makes_nobody_wait :
+  forall cf s op c, locked s = [] -> In c (mqueue (fst (mcommit_tx cf s [op]))) -> ~ In c (mqueue s) -> mc_used c = [].
+Proof. exact commit_without_lock_uses_nothing. Qed.
+
+(* non-vacuity: tree 0 stored, its reader lock taken; then its dereference is committed together with a tree 1 that
+   reuses node 1 of tree 0, and everything is processed twice over: the dereference is postponed, tree 1 is stored, tree 0
+   and its nodes are still there *)
+Lemma postponed_needs_nothing s c rest (P : Prop) : must_defer s c rest = true -> must_defer s c rest = false -> P.
+Proof. intros H1 H2. rewrite H1 in H2. discriminate. Qed.
+Definition hx_cf : mcfg := {| m_rc := false; m_append_only := false |}.
+Definition hx_c (s : mstate) (o : uop) : mstate := fst (mcommit_tx hx_cf s [o]).
+Definition hx_s0 : mstate := mlock (mprocess hx_cf (hx_c minit (UInsertTree 0 (TNode 10 [TNew (TNode 11 [TNew (TNode 12 [])])])))) 0.
+Definition hx_s1 : mstate := mprocess hx_cf (mprocess hx_cf (hx_c (hx_c hx_s0 (UDerefTree 0)) (UInsertTree 1 (TNode 20 [TExisting 1])))).
+Example C11_held_history :
+  pipe_run hx_cf hx_s0 /\ held_run hx_cf 0 hx_s0 hx_s1 /\ amem (locked hx_s0) 0 = true /\
+  holds_root hx_s0 0 {| n_data := 10; n_children := [1] |} /\
+  length (mqueue hx_s1) = 1%nat /\ map fst (roots hx_s1) = [1; 0] /\ map fst (nodes hx_s1) = [1; 2] /\ cnt hx_s1 1 = 2.
+Proof.
+  split; [|split; [|vm_compute; repeat split; try reflexivity; eexists; reflexivity]].
+  - unfold hx_s0, hx_c. apply pr_lock.
+    match goal with |- pipe_run _ (mprocess _ ?S) =>
+      let q := eval vm_compute in (mqueue S) in
+      match q with ?c :: ?rest => apply (pr_process hx_cf S c rest); [|vm_cast_no_check (eq_refl q)|intros _] end end.
+    + apply pr_commit; [apply pr_init|left; eexists; eexists; reflexivity].
+    + vm_compute. split; [reflexivity|]. intros i Hi; repeat (match type of Hi with _ \/ _ => destruct Hi as [Hi|Hi] end); try discriminate; try contradiction.
+  - unfold hx_s1, hx_c.
+    eapply hr_step; [eapply hr_step; [eapply hr_step; [eapply hr_step; [apply hr_refl|]|]|]|].
+    + apply (hs_commit hx_cf 0 hx_s0 (UDerefTree 0)). right. right. eexists. reflexivity.
+    + apply (hs_commit hx_cf 0 _ (UInsertTree 1 (TNode 20 [TExisting 1]))). left. eexists. eexists. reflexivity.
+    + match goal with |- held_step _ _ ?S _ =>
+        let q := eval vm_compute in (mqueue S) in
+        match q with ?c :: ?rest => apply (hs_process hx_cf 0 S c rest); [vm_cast_no_check (eq_refl q)|];
+          apply (postponed_needs_nothing S c rest); vm_cast_no_check (eq_refl true) end end.
+    + match goal with |- held_step _ _ ?S _ =>
+        let q := eval vm_compute in (mqueue S) in
+        match q with ?c :: ?rest => apply (hs_process hx_cf 0 S c rest); [vm_cast_no_check (eq_refl q)|] end end.
+      intros _. vm_compute. split; [reflexivity|].
+      intros i Hi; repeat (match type of Hi with _ \/ _ => destruct Hi as [Hi|Hi] end); try discriminate; try contradiction; injection Hi as <-; tauto.
+Qed.
+End Held.
+
 Print Assumptions C11_locked_tree_stable.
 Print Assumptions C11_postponed_removals_complete.
 Print Assumptions C11_old_deferral_rule_rotates_for_ever.
 Print Assumptions C11_order_preserved_refuted.
+Print Assumptions Held.C11_locked_tree_root_is_kept.
+Print Assumptions Held.C11_locked_tree_stays_readable.
+Print Assumptions Held.C11_locked_tree_is_unchanged.
+Print Assumptions Held.C11_without_locks_commit_order_is_kept.
+Print Assumptions Held.C11_commit_without_lock_makes_nobody_wait.
